@@ -169,7 +169,7 @@ PROPS = {
         'design_ref': 'DESIGN.md section 4, C15',
         'claim': 'BuildKey: kind tag <-> kind maps are inverse on the nine kinds and distinct (spec table checked for distinctness), getKind reads the '
                  'tag byte, and every accessor of the two wire shapes returns exactly the length-delimited name / payload span for arbitrary bytes '
-                 '(keys shorter than 2^32 bytes); BuildValue: a kind\'s signature / output infos / string list are encoded and decoded exactly when its factory takes them; BuildValue::toData and the decoding constructor walk the same item sequence (kind; signature, count + infos in order, string list -- each exactly when the kind's factory takes that payload), the decoder allocating a block of exactly the count read; BinaryEncoder::write / BinaryDecoder::read of 8/16/32/64-bit integers write and read the little-endian bytes and advance by the width (so decode(encode(x)) = x at item and at byte level)',
+                 '(keys shorter than 2^32 bytes); BuildValue: a kind\'s signature / output infos / string list are encoded and decoded exactly when its factory takes them; BuildValue::toData and the decoding constructor walk the same item sequence (kind; signature, count + infos in order, string list -- each exactly when the factory of the kind takes that payload), the decoder allocating a block of exactly the count read; BinaryEncoder::write / BinaryDecoder::read of 8/16/32/64-bit integers write and read the little-endian bytes and advance by the width (so decode(encode(x)) = x at item and at byte level)',
         'not_decided': ['the key constructors (std::string building)', 'StringList encode / decode and FileInfo coding traits (items here)', 'the decoder does not check that it stays inside its data (corrupt stored values)'],
     },
     'C16': {
